@@ -605,7 +605,7 @@ MON = {
 }
 
 BY_PROP = {
-    "C01": ["audience"], "C02": ["ownership", "source"], "C03": ["gate"], "C04": ["membership"],
+    "C01": ["audience", "membership"], "C02": ["ownership", "source"], "C03": ["gate"], "C04": ["membership"],
     "C05": ["nopanic"], "C06": ["cleanup", "membership"], "C07": ["admission"], "C08": ["membership"],
     "C09": ["membership"], "C10": ["notice_silent"], "C11": ["opergrant"], "C12": ["hidden"],
     "C13": ["reparse", "nopanic"], "C14": ["source"], "C15": ["rename", "membership", "source"], "C16": ["chanlife", "membership"], "C17": [], "C18": ["nopanic"],
